@@ -1,7 +1,7 @@
 """C12 - condition() picks one admissible branch (structure of condition(), the relation API and the merged
 transactions; the group-merging algorithm itself is not decided)."""
 
-from . import core, core2, core3, core4
+from . import core, core2, core3, core4, core5
 
 S = core4.SIMUL
 
@@ -13,6 +13,7 @@ def check(ctx):
     core2.mgr_ready_dependencies(ctx, "C12")
     core2.body_wrappers(ctx, "C12")
     core.cg_priority_passthrough(ctx, "C12")
+    core5.conditionally_called(ctx, "C12")
 
 
 MUTANTS = [
@@ -29,5 +30,10 @@ MUTANTS = [
     ("simultaneous-one-directional", core.TBASE, "        for other in others:\n            other.simultaneous_list.append(self)  # type: ignore\n", ""),
     ("branch-ready-ignored", S, ".body(m, ready=ready):\n            yield", ".body(m):\n            yield"),
     ("merged-calls-unconditional", core.MANAGER, "methods[transaction](m, enable_call=Cat(dep.run for dep in nontrivial_deps).all())", "methods[transaction](m, enable_call=Cat(dep.run for dep in nontrivial_deps).any())"),
+    ("condcalled-marks-link", core.MANAGER, "                        ret.add(method)\n", "                        ret.add(callee)\n"),
+    ("condcalled-dep-only-with-new-method", core.MANAGER, "                            conditional_to_infect.append(called_method)\n                    ret.add(dep)", "                            conditional_to_infect.append(called_method)\n                            ret.add(dep)"),
+    ("condcalled-no-transitive", core.MANAGER, "                            conditional_to_infect.append(called_method)\n", ""),
+    ("condcalled-not-ready-dependent-accepted", core.MANAGER, "if dep in ready_dependent and dep in method_map.transactions:", "if dep in method_map.transactions:"),
+    ("condcalled-caller-shifted", core.MANAGER, "zip(call.ancestors, (*call.ancestors[1:], transaction))", "zip(call.ancestors, (*call.ancestors[:-1], transaction))"),
     ("after-catch-all-accepted", S, "        if last:\n            raise RuntimeError(\"Condition clause added after catch-all\")\n", ""),
 ]
